@@ -123,7 +123,7 @@ func SolveAll(prelude func(*FuncResult) string, frs []*FuncResult, pick func(*Ob
 	id := 0
 	for _, fr := range frs {
 		for _, o := range fr.Obls {
-			if !pick(o) {
+			if !pick(o) || o.Result != nil {
 				continue
 			}
 			id++
